@@ -69,11 +69,12 @@ Patterns == << <<<<97>>, <<98>>>>,                                 \* a/b/a/b...
                <<<<97>>, <<98>>, DOTDOT>>,                         \* a/b/../...
                <<DOTDOT, <<97>>>>,                                 \* ../a/../a
                <<<<97>>, <<>>, <<98, 58, 99>>>>,                   \* a//b:c/...
-               <<Big, <<233>>, DOTDOT, Big>> >>
+               <<Big, <<233>>, DOTDOT, Big>>,
+               <<<<97>>, DOTDOT, <<>>, Big, <<98, 58, 99>>, Big, Big, Big, Big, Big, Big, Big, Big, Big, DOT>> >>   \* a/..//Big/b:c/Big.../.
 PatternPath(k, n) == [i \in 1..n |-> Patterns[k][((i - 1) % Len(Patterns[k])) + 1]]
-LongSegLists == {PatternPath(k, n) : k \in 1..(Len(Patterns) - 1), n \in {16, 17, 18, 33}}
+LongSegLists == {PatternPath(k, n) : k \in 1..(Len(Patterns) - 2), n \in {16, 17, 18, 33}}
                 \* > 512 bytes of normalized segments (ten 60-byte ones); ~30 s of TLC time: thorough tier only
-                \cup (IF MaxSegs >= 6 THEN {PatternPath(Len(Patterns), 20)} ELSE {})
+                \cup (IF MaxSegs >= 6 \/ MaxSegs = 0 THEN {PatternPath(Len(Patterns) - 1, 20), PatternPath(Len(Patterns), 15)} ELSE {})
 
 Init == abs \in BOOLEAN /\ segs = <<>> /\ done = TRUE /\ PrintT(ToJson(Case(Join(abs, <<>>))))
 \* two steps, so that the long paths are spread over TLC's workers (the successors of one
@@ -104,6 +105,8 @@ Theorems ==
           places == AdmissibleN(SA, p, abs, N)
       IN  \* the literal RFC algorithm and the stack walk agree on every path that starts with "/"
           /\ abs => Rfc524(p) = Normalized(p)
+          \* a path without dot segments (and without a first empty segment) is its own normalisation
+          /\ ((\A i \in 1..Len(segs) : ~IsDotSeg(segs[i])) /\ (segs = <<>> \/ segs[1] # <<>>)) => (p \in copies /\ p \in places)
           \* no "." is left, ".." only leading a relative path
           /\ NoDots(N)
           \* the demanded value always has a valid rendering
